@@ -190,6 +190,12 @@ func checkGzipTrailerAlwaysWritten(r *Report) {
 					if _, fld, _, ok := FieldOf(ft.Cond); ok && storedHere[fld] {
 						continue
 					}
+					// a "was used" flag that every write through this type sets before it reaches the
+					// compressor (also for an empty slice): a writer that compressed anything, even nothing,
+					// is terminated
+					if typ, fld, _, ok := FieldOf(ft.Cond); ok && ft.Pol && markedByEveryWrite(r.P, f.Pkg, typ, fld) {
+						continue
+					}
 					if cc, _ := CallOfValue(ft.Cond); cc != nil {
 						continue // a helper's verdict (IsClosed()): not evaluated
 					}
@@ -1260,4 +1266,43 @@ func fullReaderParam(h *ssa.Function) int {
 		}
 	}
 	return -1
+}
+
+// markedByEveryWrite: every call of (*gzip.Writer).Write made through the wrapper type (the
+// compressor is a field of it) is dominated by a store of true into the named field of that type.
+func markedByEveryWrite(p *Prog, pkg *ssa.Package, typ, field string) bool {
+	n := 0
+	for _, f := range p.Funcs {
+		if f.Pkg != pkg {
+			continue
+		}
+		for _, c := range Calls(f, false, "gzip:Writer.Write") {
+			// writes made through the wrapper that owns the flag (the compressor is one of its fields)
+			if t, _, _, ok := FieldOf(Recv(c)); !ok || t != typ {
+				continue
+			}
+			n++
+			marked := false
+			Instrs(f, func(in ssa.Instruction) {
+				st, ok := in.(*ssa.Store)
+				if !ok {
+					return
+				}
+				if _, fld, _, ok := FieldOf(st.Addr); !ok || fld != field {
+					return
+				}
+				if b, isC := ConstBool(st.Val); !isC || !b {
+					return
+				}
+				ci := c.(ssa.Instruction)
+				if (st.Block() == ci.Block() && Before(st, ci)) || (st.Block() != ci.Block() && st.Block().Dominates(ci.Block())) {
+					marked = true
+				}
+			})
+			if !marked {
+				return false
+			}
+		}
+	}
+	return n > 0
 }
